@@ -403,6 +403,18 @@ def handle (op : String) (args : List String) (obs : String) : Option Verdict :=
   | "queue.signals" =>
     some { model := "ok", spec := if obs == "ok" then none
                                   else some ("LinkedListQueue does not signal unconditionally after the append / broadcast on Close / wait in a loop (the model's pushSignal, closeBroadcast, pullWait steps assume it): " ++ obs) }
+  | "typeinfo.cache" =>
+    -- `unknown:` (the cache was restructured beyond what the syntactic check understands) is a correspondence question
+    some { model := "ok", spec := if obs.startsWith "bad:" then
+        some ("the nbt per-type cache is a plain map written without the exclusive lock: " ++ obs) else none }
+  | "cache.run" =>
+    let toks := obs.splitOn " "
+    some (match toks.head?, kv toks "seq", kv toks "conc" with
+      | some "ok", some a, some b =>
+        { model := s!"ok seq={a} conc={a}",
+          spec := if a == b then none else some "NBT results under concurrent first use of the type cache differ from the sequential results" }
+      | _, _, _ =>
+        { model := "ok", spec := some ("concurrent first use of the nbt type cache crashed the process: " ++ obs) })
   | "race.detector" => some { model := "enabled" }
   | "race.report" => some { model := "none" }
   | _ => none
